@@ -24,6 +24,7 @@ ALLOWED_AXIOMS = {"propext", "Classical.choice", "Quot.sound"}
 # harness directory -> package directory in /repo (overlay targets)
 HARNESS_PKGS = {
     "vh": "internal/verifh/vh",
+    "vhs": "internal/verifh/vhs",
     "validator": "internal/resources/hashrate/validator",
     "lib": "internal/lib",
     "hashrate": "internal/resources/hashrate/hashrate",
